@@ -1,5 +1,6 @@
 import PgFdr.Json
 import PgFdr.Model.C12
+import PgFdr.Model.CliQuant
 namespace PgFdr.Driver
 open Lean PgFdr
 
@@ -65,7 +66,12 @@ open C12io in
      "level":[num,den],"ibaq":[[protein,n]…]}` (optionally `"design":[[name,experiment,fraction]…]` and a
      `"raw"` field in every row: the run with `--experimental_design_file` / `--file_list_file`) →
     `{"experiments","nSilac","nTmt","peps","cutoff","attached":[[pq…]…],"groups":[{ids,quants,counts,
-      idType,total,intens,nPeps,ibaqTotal,ibaq,tmt,evidenceIds}…]}` or `{"err":"bad_silac_channels"}` -/
+      idType,total,intens,nPeps,ibaqTotal,ibaq,tmt,evidenceIds}…],"headers":[…]}` — `headers`: the header list the
+    MaxQuant writer's generators build for the run's experiment list and channel numbers (`CliQuant.quantHeaders`, the
+    list `cells_under_named_headers` / `design_cells_under_named_headers` speak about; a string = the refusal, e.g.
+    `dup_header`) — or `{"err": e}` with `e` one of
+    `bad_silac_channels`, `silac_index_out_of_range`, `tmt_shape_mismatch` (rows of different SILAC / reporter layouts),
+    `design_duplicate_name`, `raw_file_not_in_design` -/
 def handleQuant (j : Json) : R Json := do
   let rows ← jlist jrow (← jget j "rows")
   let groups ← jgroups (← jget j "groups")
@@ -82,7 +88,10 @@ def handleQuant (j : Json) : R Json := do
   | .ok o =>
     pure (obj [("experiments", ofStrs o.experiments), ("nSilac", ofInt o.nSilac), ("nTmt", ofInt o.nTmt),
       ("peps", ofList ofPep o.peps), ("cutoff", ofRat o.cutoff),
-      ("attached", ofList (ofList ofRow) o.attached), ("groups", ofList ofGroup o.groups)])
+      ("attached", ofList (ofList ofRow) o.attached), ("groups", ofList ofGroup o.groups),
+      ("headers", match CliQuant.quantHeaders (CliQuant.ctxOf o) with
+        | .ok hs => ofStrs hs
+        | .error e => .str e)])
 
 /-- protocol handlers of property C12: (op name, handler) -/
 def handlersC12 : List (String × (Json → R Json)) := [("quant", handleQuant)]
